@@ -83,25 +83,164 @@ Proof.
     intros (a&b&c&d&e&g&H1&H2&H3&H4); exists d, e, g, a, b, c; auto.
 Qed.
 
-(* Finding C16-2 (open): the FSM's send-max filter and the codec disagree *)
-Lemma C16_send_max_without_addpath_tx_refuted :
+(* ---------------------------------------------------------- send-max *)
+
+Definition tx_in_force (l r : list cap) (f : N) : bool :=
+  match neg_family l r f with Some (_, true) => true | _ => false end.
+
+Definition configured_max (smax : list (N * N)) (f : N) : N :=
+  match find (fun fv => fst fv =? f) smax with Some fv => snd fv | None => 1 end.
+
+Lemma driver_max_spec smax l r f :
+  driver_max smax l r f = if tx_in_force l r f then configured_max smax f else 1.
+Proof.
+  unfold driver_max, effective_max, configured_max. fold (tx_in_force l r f).
+  induction smax as [|a t IH]; cbn [filter find]; [destruct (tx_in_force l r f); reflexivity|].
+  fold (tx_in_force l r (fst a)).
+  destruct (fst a =? f) eqn:E.
+  - apply N.eqb_eq in E. rewrite E. destruct (tx_in_force l r f); cbn [find].
+    + rewrite E, N.eqb_refl. reflexivity.
+    + rewrite IH. reflexivity.
+  - destruct (tx_in_force l r (fst a)); cbn [find]; rewrite ?E; exact IH.
+Qed.
+
+(* (C16-2 repaired) more than one path is sent for a family only if add-path
+   send is in force in the negotiated codec, and then it is the configured value *)
+Lemma C16_send_max_iff_addpath_tx :
+  forall (smax : list (N * N)) (l r : list cap) (f : N),
+    (1 < driver_max smax l r f ->
+       (exists rx, neg_family l r f = Some (rx, true)) /\ driver_max smax l r f = configured_max smax f)
+    /\ ((exists rx, neg_family l r f = Some (rx, true)) -> driver_max smax l r f = configured_max smax f)
+    /\ (neg_family l r f = None \/ (exists rx, neg_family l r f = Some (rx, false)) -> driver_max smax l r f = 1).
+Proof.
+  intros smax l r f. rewrite driver_max_spec. unfold tx_in_force.
+  destruct (neg_family l r f) as [[rx [|]]|].
+  - split; [intro H; split; [eauto|reflexivity]|]. split; [reflexivity|].
+    intros [H|[rx' H]]; discriminate H.
+  - split; [intro H; lia|]. split; [intros [rx' H]; discriminate H|reflexivity].
+  - split; [intro H; lia|]. split; [intros [rx' H]; discriminate H|reflexivity].
+Qed.
+
+(* record of finding C16-2: the filter PeerFsm::process used before the repair *)
+Definition effective_max_any (smax : list (N * N)) (lcap rcap : list cap) : list (N * N) :=
+  filter (fun fv => addpath_any lcap (fst fv) 2 && addpath_any rcap (fst fv) 1) smax.
+
+Lemma C16_send_max_any_filter_refuted :
   exists (smax : list (N * N)) (l r : list cap) (f : N),
-    has_mp l f && has_mp r f = true /\ 1 < driver_max smax l r f
-    /\ neg_family l r f = Some (false, false).
+    In (f, 8) (effective_max_any smax l r) /\ neg_family l r f = Some (false, false).
 Proof.
   exists [(65537, 8)], [CMultiProtocol 65537; CAddPath [(65537, 3); (65537, 0)]],
          [CMultiProtocol 65537; CAddPath [(65537, 3)]], 65537.
-  vm_compute. repeat split.
+  vm_compute. auto.
 Qed.
 
-(* Finding C16-3 (open): LLGR is in force at one end only *)
-Lemma C16_llgr_mirror_refuted :
+(* -------------------------------------------------------------- LLGR *)
+
+Definition fam3 (e : N * N * N) : N := fst (fst e).
+Definition ftime (v : list (N * N * N)) (f : N) : option N :=
+  option_map snd (find (fun q => fam3 q =? f) v).
+
+Lemma first_entries_In v : forall seen e,
+  In e (first_entries seen v) <->
+  existsb (N.eqb (fam3 e)) seen = false /\ find (fun q => fam3 q =? fam3 e) v = Some e.
+Proof.
+  induction v as [|e0 t IH]; intros seen e; cbn [first_entries find].
+  - split; [intros []|intros [_ H]; discriminate H].
+  - fold (fam3 e0). destruct (existsb (N.eqb (fam3 e0)) seen) eqn:Es.
+    + rewrite IH. destruct (fam3 e0 =? fam3 e) eqn:E.
+      * apply N.eqb_eq in E. rewrite <- E, Es. split; intros [H _]; discriminate H.
+      * reflexivity.
+    + cbn [In]. rewrite IH. cbn [existsb]. destruct (fam3 e0 =? fam3 e) eqn:E.
+      * apply N.eqb_eq in E. rewrite <- E, N.eqb_refl. cbn [orb]. split.
+        -- intros [H|[H _]]; [subst e0; split; [exact Es|reflexivity] | discriminate H].
+        -- intros [_ H]. injection H as H. left. exact H.
+      * assert (E' : fam3 e =? fam3 e0 = false) by (rewrite N.eqb_sym; exact E).
+        rewrite E'. cbn [orb]. split.
+        -- intros [H|H]; [subst e0; rewrite N.eqb_refl in E; discriminate|exact H].
+        -- intro H. right. exact H.
+Qed.
+
+Lemma find_fam v f q : find (fun q => fam3 q =? f) v = Some q -> fam3 q = f.
+Proof. intro H. apply find_some in H as [_ H]. apply N.eqb_eq. exact H. Qed.
+
+Lemma llgr_fams_spec l r f :
+  In f (llgr_fams (negotiate_llgr l r)) <->
+  exists lv pv lt pt, first_llgr l = Some lv /\ first_llgr r = Some pv
+                      /\ ftime lv f = Some lt /\ ftime pv f = Some pt /\ (0 < pt \/ 0 < lt).
+Proof.
+  unfold negotiate_llgr.
+  destruct (first_llgr l) as [lv|]; [|split; [intros []|intros (?&?&?&?&H&_); discriminate H]].
+  destruct (first_llgr r) as [pv|]; [|split; [intros []|intros (?&?&?&?&_&H&_); discriminate H]].
+  set (g := fun e : N * N * N => _). set (fams := flat_map g _).
+  assert (Hf : In f (map fst fams) <->
+               exists lt pt, ftime lv f = Some lt /\ ftime pv f = Some pt /\ (0 < pt \/ 0 < lt)).
+  { subst fams. rewrite in_map_iff. split.
+    - intros ([f' secs] & Ef & Hin). cbn [fst] in Ef. subst f'.
+      apply in_flat_map in Hin as (e & He & Hg). apply first_entries_In in He as [_ He].
+      subst g. cbv beta in Hg. fold (fam3 e) in Hg.
+      destruct (find (fun q => fst (fst q) =? fam3 e) pv) as [q|] eqn:Eq; [|destruct Hg].
+      pose proof (find_fam pv (fam3 e) q Eq) as Hq. fold (fam3 q) in Hg. rewrite Hq in Hg.
+      destruct ((if 0 <? snd q then snd q else snd e) =? 0) eqn:Ez; [destruct Hg|].
+      destruct Hg as [Hg|[]]. injection Hg as Hf _.
+      exists (snd e), (snd q). unfold ftime. rewrite <- Hf. rewrite He. fold fam3 in Eq. unfold fam3 in *.
+      rewrite Eq. cbn [option_map]. split; [reflexivity|]. split; [reflexivity|].
+      destruct (0 <? snd q) eqn:E0; lia.
+    - intros (lt & pt & Hl & Hp & Hpos). unfold ftime in Hl, Hp.
+      destruct (find (fun q => fam3 q =? f) lv) as [e|] eqn:Ee; [|discriminate Hl].
+      destruct (find (fun q => fam3 q =? f) pv) as [q|] eqn:Eq; [|discriminate Hp].
+      cbn [option_map] in Hl, Hp. injection Hl as Hl. injection Hp as Hp.
+      pose proof (find_fam lv f e Ee) as Hfe. pose proof (find_fam pv f q Eq) as Hfq.
+      exists (f, if 0 <? pt then pt else lt). split; [reflexivity|].
+      apply in_flat_map. exists e. split.
+      + apply first_entries_In. split; [reflexivity|]. rewrite Hfe. exact Ee.
+      + subst g. cbv beta. fold (fam3 e). rewrite Hfe. unfold fam3 in Eq. rewrite Eq.
+        fold (fam3 q). rewrite Hfq, Hl, Hp.
+        destruct ((if 0 <? pt then pt else lt) =? 0) eqn:Ez; [destruct (0 <? pt) eqn:E0; lia|].
+        left. reflexivity. }
+  destruct fams as [|x xs] eqn:Efams.
+  - cbn [llgr_fams]. cbn [map] in Hf. split; [intros []|].
+    intros (a&b&lt&pt&H1&H2&H3). injection H1 as ->. injection H2 as ->. apply Hf. eauto.
+  - cbn [llgr_fams]. rewrite Hf. split.
+    + intros (lt & pt & H). exists lv, pv, lt, pt. auto.
+    + intros (a&b&lt&pt&H1&H2&H3). injection H1 as ->. injection H2 as ->. eauto.
+Qed.
+
+(* (C16-3 repaired) LLGR is in force for the same families at both ends *)
+Lemma C16_llgr_mirror :
+  forall (l r : list cap), same_set (llgr_fams (negotiate_llgr l r)) (llgr_fams (negotiate_llgr r l)).
+Proof.
+  intros l r f. rewrite !llgr_fams_spec. split;
+    intros (a&b&lt&pt&H1&H2&H3&H4&H5); exists b, a, pt, lt; repeat split; auto; tauto.
+Qed.
+
+(* record of finding C16-3: without the first-entry rule on the local list *)
+Definition negotiate_llgr_all_entries (l r : list cap) : list N :=
+  match first_llgr l, first_llgr r with
+  | Some lv, Some pv =>
+      flat_map (fun e => match find (fun q => fam3 q =? fam3 e) pv with
+                         | Some q => if (if 0 <? snd q then snd q else snd e) =? 0 then [] else [fam3 q]
+                         | None => []
+                         end) lv
+  | _, _ => []
+  end.
+
+Lemma C16_llgr_all_entries_refuted :
   exists (l r : list cap),
-    ~ same_set (llgr_fams (negotiate_llgr l r)) (llgr_fams (negotiate_llgr r l)).
+    ~ same_set (negotiate_llgr_all_entries l r) (negotiate_llgr_all_entries r l).
 Proof.
   exists [CLLGR [(131073, 128, 0); (131073, 0, 60)]], [CLLGR [(131073, 128, 0)]].
   intro H. specialize (H 131073). vm_compute in H. destruct H as [H _]. destruct H; auto.
 Qed.
+
+Example llgr_nonvacuous :
+  llgr_fams (negotiate_llgr [CLLGR [(131073, 128, 0); (131073, 0, 60); (65537, 0, 5)]]
+                            [CLLGR [(131073, 128, 0); (65537, 0, 0)]]) = [65537].
+Proof. reflexivity. Qed.
+
+Example send_max_nonvacuous :
+  driver_max [(65537, 8)] [CMultiProtocol 65537; CAddPath [(65537, 2)]]
+             [CMultiProtocol 65537; CAddPath [(65537, 1)]] 65537 = 8.
+Proof. reflexivity. Qed.
 
 Example family_nonvacuous :
   neg_family [CMultiProtocol 65537; CAddPath [(65537, 3)]] [CMultiProtocol 65537; CAddPath [(65537, 1)]] 65537
